@@ -428,3 +428,5 @@ contract(MB, 'AutomatonParser.parse_line', {'self': 'Parser', 'line': 'Atom'}, r
          theories=TH, props=['C17'],
          note='one line of a description, given its blank-separated tokens (tokens(line): uninterpreted): comment and blank lines change nothing; "states / initial / final ..." set exactly that state set and record the declaration; a keyword line records its values; '
               'any other line appends its transitions; raises exactly in the eight listed cases (repeated declaration, duplicate name, empty state list, malformed name, repeated keyword, incomplete transition, malformed state or label)')
+contract(MB, 'AutomatonBuilder._check_transition_label', {'self': 'Builder', 'label': 'Atom'}, returns='None',
+         raises='not re_fullmatch(self.transition_regex, label)', theories=[], props=['C17'])
